@@ -3,7 +3,7 @@
 From Coq Require Import List String Ascii ZArith NArith Bool.
 From QRB Require Import Base.Bytes Model.W Model.Values Model.Compile Model.Sexp Model.Decode.
 From QRB Require Import Meta.Regex Gen.Regex Model.WArgs Model.Wfe Pg.Lexer Model.JsonMap.
-From QRB Require Import Pg.Expr Pg.Stmt Model.XExp Model.C02Eval Model.C01Eval.
+From QRB Require Import Pg.Expr Pg.Stmt Model.XExp Model.C02Eval Model.C01Eval Model.Api Model.ApiEval.
 Import ListNotations.
 Local Open Scope string_scope.
 
@@ -204,6 +204,32 @@ Definition handle (x : sexp) : string :=
                    | None => "RS lexerr"
                    end
       | None => "DECODEFAIL"
+      end
+  | SList [SAtom "api"; rt; m; recv; SList args; res] =>
+      match d_str rt, d_str m with
+      | Some rt', Some m' =>
+          match api_check rt' m' recv args res with
+          | ApiOk => "API ok"
+          | ApiDiff a b => "API diff s" ++ hex a ++ " s" ++ hex b
+          | ApiNone => "API none"
+          | ApiDecodeFail w => "API decodefail " ++ w
+          end
+      | _, _ => "DECODEFAIL"
+      end
+  | SList [SAtom "apihyp"; rt; m; recv; SList args] =>
+      match d_str rt, d_str m with
+      | Some rt', Some m' =>
+          match api_hyp rt' m' recv args with Some true => "T" | Some false => "F" | None => "DECODEFAIL" end
+      | _, _ => "DECODEFAIL"
+      end
+  | SList [SAtom "apirender"; rt; m; recv; SList args] =>
+      match d_str rt, d_str m with
+      | Some rt', Some m' =>
+          match api_result rt' m' recv args with
+          | Some e' => show_result (render (Build_opts true false) [] e')
+          | None => "NONE"
+          end
+      | _, _ => "DECODEFAIL"
       end
   | SList [SAtom "wfe"; e] =>
       match decode_exp e with Some e' => if wfe e' then "T" else "F" | None => "DECODEFAIL" end
